@@ -49,6 +49,8 @@ const MAINPUBEXTVALUE: &str = "pub extern fn value() -> u8\n{\n\treturn: 4\n}\nf
 // and the same public head of a C function in both
 const HEADMAIN: &str = "pub extern fn abs(x: i32) -> i32;\npub extern fn helper(x: i32) -> i32;\n\nfn main() -> u8\n{\n\tvar r: i32 = abs(-3);\n\tvar h: i32 = helper(r);\n\tprint!(\"linked \", h, \"\\n\");\n\treturn: h as u8\n}\n";
 const HEADHELPER: &str = "pub extern fn abs(x: i32) -> i32;\n\npub extern fn helper(x: i32) -> i32\n{\n\tvar r: i32 = abs(x - 10);\n\treturn: r\n}\n";
+// the imported module two directories below the importer
+const MAINDEEP: &str = "import \"lib/deep/lib.pn\";\n\nfn main() -> u8\n{\n\tprint!(\"two \", lib_value(), \"\\n\");\n\treturn: lib_value()\n}\n";
 const UNRESOLVED: &str = "import \"vendor:nothing/here.pn\";\nimport \"core:text\";\n\nfn main() -> u8\n{\n\treturn: 1\n}\n";
 
 pub fn inputs() -> Vec<InputClass>
@@ -59,6 +61,8 @@ pub fn inputs() -> Vec<InputClass>
 		InputClass { name: "valid, library first", files: vec![("lib.pn", LIB), ("main.pn", MAIN2)], missing: false, link_conflict: false, program: Some(("two 3\n", 3)) },
 		InputClass { name: "valid, two files joined by public heads", files: vec![("headmain.pn", HEADMAIN), ("headhelper.pn", HEADHELPER)], missing: false, link_conflict: false, program: Some(("linked 7\n", 7)) },
 		InputClass { name: "valid, two files joined by public heads, definition first", files: vec![("headhelper.pn", HEADHELPER), ("headmain.pn", HEADMAIN)], missing: false, link_conflict: false, program: Some(("linked 7\n", 7)) },
+		InputClass { name: "valid, the second file two directories below the first", files: vec![("top.pn", MAINDEEP), ("lib/deep/lib.pn", LIB)], missing: false, link_conflict: false, program: Some(("two 3\n", 3)) },
+		InputClass { name: "valid, the first file two directories below the second", files: vec![("lib/deep/lib.pn", LIB), ("top.pn", MAINDEEP)], missing: false, link_conflict: false, program: Some(("two 3\n", 3)) },
 		InputClass { name: "valid with a lint", files: vec![("lint.pn", LINT)], missing: false, link_conflict: false, program: Some(("", 44)) },
 		InputClass { name: "lexical error", files: vec![("lex.pn", LEXERR)], missing: false, link_conflict: false, program: None },
 		InputClass { name: "type errors", files: vec![("type.pn", TYPEERR)], missing: false, link_conflict: false, program: None },
